@@ -43,7 +43,7 @@ def run_case(rep, rng, ci, dev, cfg, texts, recs_all):
     def on_step(solver, state, kw, res):
         nupd[0] += 1
         psi = np.asarray(res.psi)
-        case = {"run": ci, **{k: str(v) for k, v in cfg.items()}, "step": state["step"]}
+        case = {"run": ci, **{k: str(v) for k, v in cfg.items() if k != "seed"}, "step": state["step"]}
         if tp is not None:
             dev_ = float(np.max(np.abs(psi[tsites] - tp)))
             if dev_ != 0.0:        # the configured value is imposed, not approached: exact
@@ -73,8 +73,20 @@ def run_case(rep, rng, ci, dev, cfg, texts, recs_all):
         opts = runs.make_options(td, solve_time=cfg["solve_time"], dt_init=2e-3, dt_max=5e-2, adaptive=True,
                                  save_every=20, terminal_psi=tp, include_screening=cfg["screening"],
                                  screening_tolerance=1e-2)
-        _, solver_ = runs.traced_solve(dev, opts, A=cfg["field"], currents=cur, on_step=on_step, before_step=before)
+        sol_, solver_ = runs.traced_solve(dev, opts, A=cfg["field"], currents=cur, on_step=on_step, before_step=before,
+                                          seed_solution=cfg.get("seed"))
         runs.report_threading(rep, solver_, {"run": "C06 plan"})
+        if tp is not None:
+            # every RECORDED step, the first frame included (with a seed solution it is the state the run starts from)
+            import h5py
+            with h5py.File(sol_.path, "r") as f_:
+                for key_ in sorted(f_["data"], key=int):
+                    dv_ = float(np.max(np.abs(np.array(f_["data"][key_]["psi"])[tsites] - tp)))
+                    if dv_ != 0.0:
+                        rep.violation(f"recorded frame {key_}: the order parameter on terminal sites is not the configured terminal value "
+                                      f"(max deviation {dv_:.3e})", {"run": ci, **{k: str(v) for k, v in cfg.items() if k != "seed"},
+                                                                     "seeded": cfg.get("seed") is not None})
+                        break
     if tp is None and moved[0] < 1e-6 and cfg["current"] != 0:
         rep.violation("terminal_psi=None but the terminal sites did not evolve (still pinned?)",
                       {"run": ci, "max_change": moved[0]})
@@ -83,7 +95,7 @@ def run_case(rep, rng, ci, dev, cfg, texts, recs_all):
         recs_all.append((r, {"run": ci, "terminal_psi": str(tp), "step": r.step}))
     rep.count(nupd[0])
     rep.nontrivial((str(tp), cfg["screening"], cfg["field"] != 0, cfg["current"] != 0))
-    rep.sample({"run": ci, **{k: str(v) for k, v in cfg.items()}, "updates": nupd[0], "terminal_sites": int(len(tsites))})
+    rep.sample({"run": ci, **{k: str(v) for k, v in cfg.items() if k != "seed"}, "updates": nupd[0], "terminal_sites": int(len(tsites))})
 
 
 def run(rep: common.Report, tier: str, seed: int, replay=None) -> int:
@@ -134,6 +146,16 @@ def run(rep: common.Report, tier: str, seed: int, replay=None) -> int:
     run_case(rep, rng, 203, hdev, {**hcfg, "terminal_psi": None}, texts, recs_all)      # same mesh, contacts now unpinned
     hdev.make_mesh(max_edge_length=0.9, smooth=0)
     run_case(rep, rng, 204, hdev, {**hcfg, "terminal_psi": 1.0}, texts, recs_all)
+    # history form: runs SEEDED from a solution computed with other contact settings (unpinned, or pinned to another value): the
+    # terminals hold the value configured for THIS run from its first recorded frame on
+    sdev = meshes.make_device(rng, holes=0, terminals=2, max_edge_length=1.3)
+    import tempfile as _tf
+    with _tf.TemporaryDirectory(prefix="pyt_c06s_") as std:
+        for k_, (tp_seed, tp_run) in enumerate(((None, 0.0), (None, 0.5), (1.0, 0.0), (0.0, 0.3 + 0.4j))):
+            so = runs.make_options(None, solve_time=0.2, dt_init=2e-3, dt_max=2e-2, save_every=20, terminal_psi=tp_seed,
+                                   output_file=f"{std}/seed{k_}.h5")
+            seed_sol, _ = runs.traced_solve(sdev, so, A=0.2, currents={"source": 1.0, "drain": -1.0})
+            run_case(rep, rng, 220 + k_, sdev, {**hcfg, "terminal_psi": tp_run, "seed": seed_sol}, texts, recs_all)
     # extremal positions: a mesh numbered so that the LAST site and site 0 are terminal sites (Triangle puts interior Steiner
     # points last; a mesh read from elsewhere, or renumbered, need not)
     from tdgl.finite_volume.mesh import Mesh
